@@ -221,7 +221,9 @@ func c06ScalarOps() []h.DiffOp {
 			}},
 		{Name: "uint64", Weight: 1,
 			Covers: []string{"NewFromUint64", "Scalar.SetUint64"},
-			Gen: func(t *rapid.T, c *h.DiffCase) { c.PutB(h.UniformBytes(t, rapid.SampledFrom([]int{0, 1, 4, 8}).Draw(t, "n"), "x")) },
+			Gen: func(t *rapid.T, c *h.DiffCase) {
+				c.PutB(h.UniformBytes(t, rapid.SampledFrom([]int{0, 1, 4, 8}).Draw(t, "n"), "x"))
+			},
 			Exec: func(a *h.DiffArgs, o *h.DiffOut) {
 				var x uint64
 				for i, b := range a.B() {
@@ -259,7 +261,9 @@ func c06ScalarOps() []h.DiffOp {
 			}},
 		{Name: "random", Weight: 1,
 			Covers: []string{"Scalar.SetRandom"},
-			Gen:    func(t *rapid.T, c *h.DiffCase) { h.DiffEntropy(t, c, rapid.SampledFrom([]int{0, 1, 63, 64, 65, 128}).Draw(t, "n"), "rng") },
+			Gen: func(t *rapid.T, c *h.DiffCase) {
+				h.DiffEntropy(t, c, rapid.SampledFrom([]int{0, 1, 63, 64, 65, 128}).Draw(t, "n"), "rng")
+			},
 			Exec: func(a *h.DiffArgs, o *h.DiffOut) {
 				rd := h.NewDiffReader(a.B())
 				s, err := New().SetRandom(rd)
